@@ -173,8 +173,8 @@ Section Sort.
            (rfold (fun adj r => add_refs ids adj r) rules (map (fun i => (i, [])) ids)).
     destruct (rfold (fun adj r => add_refs ids adj r) rules (map (fun i => (i, [])) ids)) as [adj|e]; cbn [bind]; [|apply Ha].
     destruct Ha as (Hcl & Hk & He).
-    pose proof (top_order_spec ident_eqb str_leb always_sortable ident_eqb_eq (fun _ => eq_refl) ids adj
-                  (nodup_dedup ident_eqb ident_eqb_eq _) Hk) as Ht.
+    pose proof (top_order_spec ident_eqb str_leb always_sortable ident_eqb_eq ids adj
+                  (nodup_dedup ident_eqb ident_eqb_eq _) Hk (fun _ _ => eq_refl)) as Ht.
     destruct (top_order ident_eqb str_leb always_sortable ids adj) as [order|e]; cbn [bind]; [|exact Ht].
     destruct Ht as (Hc & Hnd & Hin & Hbefore).
     split; [exact Hcl|]. split; [exact Hnd|]. split; [exact Hin|]. split; [reflexivity|]. split; [apply sorted_in, Hin|].
@@ -225,8 +225,8 @@ Section Sort.
            (rfold (fun adj r => add_refs ids adj r) rules (map (fun i => (i, [])) ids)).
     destruct (rfold (fun adj r => add_refs ids adj r) rules (map (fun i => (i, [])) ids)) as [adj|e]; cbn [bind].
     - destruct Ha as (_ & Hk & He).
-      destruct (top_order_complete ident_eqb str_leb always_sortable ident_eqb_eq (fun _ => eq_refl) ids adj
-                  (nodup_dedup ident_eqb ident_eqb_eq _) Hk rank) as (o & Ho).
+      destruct (top_order_complete ident_eqb str_leb always_sortable ident_eqb_eq ids adj
+                  (nodup_dedup ident_eqb ident_eqb_eq _) Hk (fun _ _ => eq_refl) rank) as (o & Ho).
       + intros a b Hab. apply He in Hab. destruct Hab as [Hab|(r & Hr & <- & Hb)]; [exfalso; eapply zero_adj_edges; eauto|].
         split; [apply ids_in; eauto | apply (Hcl r b Hr Hb)].
       + intros a b Hab. apply He in Hab. destruct Hab as [Hab|(r & Hr & <- & Hb)]; [exfalso; eapply zero_adj_edges; eauto|].
